@@ -27,7 +27,58 @@ def drain(pr, k=2):
         n += 1
 
 
+def gen_listener_sends(rng):
+    """a listener whose user also sends: it hears a segmented message while Single Frames / a multi-frame message of its own are
+    queued or in flight.  It may transmit what its user sends, never a Flow Control for what it hears."""
+    from streams import encode_stream
+    a, _ = rand_inst_pair(rng)
+    p = {'listen_mode': True, 'blocksize': rng.choice([0, 1, 2, 3]), 'stmin': 0}
+    inst = dict(a, params=p)
+    rid, ext, pfx = reach(inst)
+    heard = bytes(rng.getrandbits(8) for _ in range(rng.choice([20, 40])))
+    frames = encode_stream(heard, 8, pfx)
+    ops = []
+    own_multi = rng.random() < 0.5
+    at = rng.randrange(len(frames))
+    for i, f in enumerate(frames):
+        if i == at:
+            ops.append([0, 'send', None, hx(bytes(rng.getrandbits(8) for _ in range(20 if own_multi else 3)))])
+        ops.append([0, 'rx', rid, int(ext), hx(f)])
+        ops.append([0, 'proc', 1, 1])
+        if own_multi and i > at and rng.random() < 0.6:
+            ops.append([0, 'rx', rid, int(ext), hx(pfx + bytes([0x30, 0, 0]))])      # the grant for its own transmission
+            ops.append([0, 'proc', 1, 1])
+    ops += [[0, 'rx', rid, int(ext), hx(pfx + bytes([0x30, 0, 0]))], [0, 'proc', 1, 1], [0, 'proc', 1, 1], [0, 'recv']]
+    return {'insts': [inst], 'ops': ops, 'nops': len(ops), 'heard': hx(heard)}
+
+
+def oracle_listener_sends(case, lines, insts):
+    inst = case['insts'][0]
+    tplen = 1 if inst['txa']['mode'].startswith(('Extended', 'Mixed')) else 0
+    fails = []
+    for l in lines:
+        for e in split_line(l)[0]:
+            if e.startswith('tx:'):
+                d = unhx(e.split(':')[6])
+                if len(d) > tplen and d[tplen] >> 4 == 3:
+                    fails.append(('C18:listener-transmitted', 'a listener whose user sends emitted the Flow Control %s' % e))
+    if case.get('nops') == len(case['ops']):
+        got = [e[5:] for l in lines for e in split_line(l)[0] if e.startswith('recv:') and e != 'recv:none']
+        if got != [case['heard']]:
+            fails.append(('C18:listener-hears-differently', 'listener delivered %d payloads, expected the tapped one' % len(got)))
+    return fails
+
+
 def run_shard(campaign, shard, nshards, seed, tier):
+    if campaign == 'listener_sends':
+        part = Part()
+        rng = random.Random('%s/%s/%s' % (seed, campaign, shard))
+        for _ in range((120 if tier != 'thorough' else 6000) // nshards + 1):
+            case = gen_listener_sends(rng)
+            part.distinct(case)
+            lc.run_case(part, campaign, case, oracle=oracle_listener_sends, theorem=THEOREMS + '.C18_silent')
+            part.sample({'params': case['insts'][0]['params'], 'ops': case['ops'][:6]})
+        return part.result()
     part = Part()
     rng = random.Random('%s/%s/%s' % (seed, campaign, shard))
     quick = tier != 'thorough'
@@ -130,4 +181,5 @@ def run_shard(campaign, shard, nshards, seed, tier):
 def run(ctx):
     run_sharded(ctx, 'C18', 'tap')
     run_sharded(ctx, 'C18', 'garbage')
+    run_sharded(ctx, 'C18', 'listener_sends')
     return RULE, ASSUME
